@@ -121,6 +121,8 @@ pub enum MOp {
     NetPlan(Vec<u8>),
     /// whether the outstation answers REQUEST_LINK_STATUS frames
     AnswerLinkStatus { assoc: usize, on: bool },
+    /// NEED_TIME stays set whatever is written
+    StickyNeedTime(bool),
     /// the master task is dropped (runtime shutdown): every pending promise must still resolve
     KillMaster,
     /// a channel message unrelated to any request (set_decode_level) - activity while tasks wait
@@ -197,6 +199,9 @@ pub struct OutstationSim {
     /// the time written by the master (WRITE g50v1 / g50v3), with virtual time of arrival
     pub time_written: Vec<(u64, u64, u8)>,
     pub recorded_time_at: Option<u64>,
+    pub recorded_times: Vec<u64>,
+    /// NEED_TIME is not cleared by a time write
+    pub sticky_need_time: bool,
 }
 
 impl OutstationSim {
@@ -220,6 +225,8 @@ impl OutstationSim {
             file_handle: 0x1000,
             time_written: Vec::new(),
             recorded_time_at: None,
+            recorded_times: Vec::new(),
+            sticky_need_time: false,
         }
     }
 }
@@ -242,7 +249,7 @@ pub struct PeerShared {
 
 pub type Peer = Arc<Mutex<PeerShared>>;
 
-fn order_now() -> (u64, u64) {
+pub fn order_now() -> (u64, u64) {
     match kernel::current() {
         Some(c) => (c.now_ms(), c.next_order()),
         None => (0, 0),
@@ -575,6 +582,7 @@ fn on_fragment(p: &mut PeerShared, src: u16, dest: u16, bytes: &[u8], worder: u6
         }
         refapp::FUNC_RECORD_CURRENT_TIME => {
             p.outstations[oi].recorded_time_at = Some(t);
+            p.outstations[oi].recorded_times.push(t);
             fragments.push(response_bytes(Ctrl::request(seq), refapp::FUNC_RESPONSE, iin, &[]));
         }
         25 => {
@@ -640,7 +648,9 @@ fn on_fragment(p: &mut PeerShared, src: u16, dest: u16, bytes: &[u8], worder: u6
                         }
                         p.outstations[oi].time_written.push((t, v, o.var));
                         // a successful time write clears NEED_TIME
-                        p.outstations[oi].iin.0 &= !0x10;
+                        if !p.outstations[oi].sticky_need_time {
+                            p.outstations[oi].iin.0 &= !0x10;
+                        }
                     }
                 }
             }
@@ -986,6 +996,12 @@ pub struct MastRun {
     /// fragments in the order and at the moments the master's transport reader handed them to its application layer (hook H5):
     /// (virtual ms, order, link source, octets)
     pub master_rx: Vec<(u64, u64, u16, Vec<u8>)>,
+    /// times written to the first scripted outstation: (virtual ms at the outstation, value, variation of g50)
+    pub time_written: Vec<(u64, u64, u8)>,
+    /// virtual ms at which the first scripted outstation received RECORD_CURRENT_TIME
+    pub recorded_at: Vec<u64>,
+    /// NEED_TIME was raised at some point of the run
+    pub need_time_was_set: bool,
     /// poll operations that took effect: (script index, add / demand / remove, association, classes, period ms)
     pub poll_ops: Vec<(usize, &'static str, u16, u8, u64)>,
     /// executor polls of the master task, and of all tasks
@@ -998,7 +1014,7 @@ pub struct MastRun {
     pub stuck_indications: Vec<u16>,
 }
 
-fn classes_of(mask: u8) -> Classes {
+pub fn classes_of(mask: u8) -> Classes {
     Classes::new(mask & 8 != 0, EventClasses::new(mask & 1 != 0, mask & 2 != 0, mask & 4 != 0))
 }
 
@@ -1031,7 +1047,7 @@ fn build_commands(headers: &[Vec<(u8, u16, bool)>]) -> crate::master::CommandHea
 }
 
 /// spawn a simulated user thread performing one request and recording its outcome
-fn spawn_user(sim: &Sim, node: &MasterNode, id: u64, assoc: &AssociationHandle, kind: &UserKind) {
+pub fn spawn_user(sim: &Sim, node: &MasterNode, id: u64, assoc: &AssociationHandle, kind: &UserKind) {
     let rec = node.rec.clone();
     let mut h = assoc.clone();
     let kind = kind.clone();
@@ -1271,6 +1287,12 @@ pub async fn drive(sim: &Sim, case: &SmastCase) -> MastRun {
                     o.answer_link_status = *on;
                 }
             }
+            MOp::StickyNeedTime(on) => {
+                let mut p = peer.lock().unwrap();
+                for o in p.outstations.iter_mut() {
+                    o.sticky_need_time = *on;
+                }
+            }
             MOp::KillMaster => {
                 sim.kill(node.task);
                 sim.count("fault.master_task_dropped");
@@ -1310,6 +1332,9 @@ pub async fn drive(sim: &Sim, case: &SmastCase) -> MastRun {
     let end_ms = sim.now_ms();
     let leftover_replies: usize = peer.lock().unwrap().outstations.iter().map(|o| o.replies.len()).sum();
     let peer_log = peer.lock().unwrap().log.clone();
+    let time_written = peer.lock().unwrap().outstations.first().map(|o| o.time_written.clone()).unwrap_or_default();
+    let recorded_at = peer.lock().unwrap().outstations.first().map(|o| o.recorded_times.clone()).unwrap_or_default();
+    let last_deviation_ms = peer.lock().unwrap().last_deviation_ms;
     let run = MastRun {
         peer_log,
         master_log: node.rec.lock().unwrap().log.clone(),
@@ -1318,9 +1343,12 @@ pub async fn drive(sim: &Sim, case: &SmastCase) -> MastRun {
         end_ms,
         user_kinds,
         leftover_replies,
+        time_written,
+        recorded_at,
+        need_time_was_set: case.script.iter().any(|o| matches!(o, MOp::SetIin { iin1, .. } if iin1 & 0x10 != 0)),
         poll_ops,
         master_polls: sim.task_polls(node.task),
-        last_deviation_ms: peer.lock().unwrap().last_deviation_ms,
+        last_deviation_ms,
         master_rx: sim.core().popped.borrow().clone(),
         stuck_indications: Vec::new(),
     };
